@@ -311,6 +311,17 @@ theorem getOnline_reports_census (pre : List (Op Id)) :
 
 /-! ### the server's side: who sends the notifications -/
 
+/-- regenerated from core/server/server.go (go/ast): in `h3sHandler.ServeHTTP` the read of
+    `authenticated`, the `Authenticate` call, the assignment `authenticated = true` and the
+    `LogOnlineState(…, true)` call all sit inside ONE `authMutex` Lock()…Unlock() region.  This
+    is what makes `Act.authReq` (test, verdict, commit, notify) a single atomic step of
+    `connStep`: two auth requests in flight on one connection cannot both find it
+    unauthenticated. -/
+theorem gen_auth_one_region : Gen.c15_auth_one_region = 1 := by decide
+/-- … and the package has exactly the two `LogOnlineState` call sites the model has: online in
+    `ServeHTTP` (`authReq`), offline in `handleClient` (`finish`). -/
+theorem gen_logOnline_call_sites : Gen.c15_logonline_sites = "ServeHTTP:true;handleClient:false" := by decide
+
 /-- For every schedule of `n` connections' steps (auth requests with any verdicts, in any
     number and order; ServeQUICConn returning for any reason; handleClient's tail) interleaved
     with any other use of the stats API: each connection has sent nothing if no auth was
